@@ -1,61 +1,72 @@
 import GolibsVerif.Lemmas.RedisConcSim
+import GolibsVerif.Lemmas.RedisConcLoop
 /-
-C02 (Redis backend, all interleavings) — the command-level concurrent model `RedisConc` of
-kvs/redis/redis.go is linearizable w.r.t. the KV contract `Kv.Spec`: for ANY number of clients, ANY
-programs over Create / Get / GetMany / Put / PutMany(MSET) / CasByVersion / Delete and ANY
-interleaving of their Redis commands (including any number of lost WATCH/EXEC races and of
-Create's SETNX/GET retries), every operation takes effect at exactly one of its commands, between
-its invocation and its response, with exactly the result the contract gives at that moment.
+C02 (Redis backend, all interleavings, with expiries and a clock) — the command-level concurrent
+model `RedisConc` of kvs/redis/redis.go is linearizable w.r.t. the KV contract `Kv.Spec` read at the
+server's time: for ANY number of clients, ANY programs over Create / Get / GetMany / Put /
+PutMany (MSET, or the loop of SETs) / CasByVersion / Delete with ANY expiries, ANY interleaving of
+their Redis commands (including any number of lost WATCH/EXEC races and of Create's SETNX/GET
+retries) and ANY advance of the clock outside the clients' TTL windows, every operation takes effect
+at exactly one of its commands, between its invocation and its response, with exactly the result the
+contract gives at that moment and that time.  The loop path of PutMany is not one operation: each of
+its SETs is one complete Put of that client, in the order of the records ("per-key effects").
 -/
 namespace C02Redis
 open Kv RedisConc Lin
 
-/- `Corr p ts` (Lemmas/RedisConcSim.lean): client at `idle` ↔ Lin thread `idle`; `done r` ↔ `linearized _ _ r`
-(the result is the one fixed at the linearization point); any other pc ↔ `pending _ op` with `op` the
-operation the pc belongs to (`opOf`). -/
+/- `Corr p ts` (Lemmas/RedisConcSim.lean): Lin thread `idle` ↔ client at `idle`, `putLoop _` or `loopDone`;
+`linearized _ _ r` ↔ `done r` (the result is the one fixed at the linearization point);
+`pending _ (.op op)` ↔ a pc with `opOf pc = some op`. -/
 /-- the WATCH guarantee the CAS relies on: a client about to EXEC whose watch is untouched still sees
-the record it read: the key holds a record with exactly the expected version. -/
-theorem exec_sees_what_get_saw (n : Nat) (es : List Ev) (s : St) (ls : List (Lin.Ev Op Out))
-    (h : runL (St.init n) es = some (s, ls)) (t : Nat) (k : String) (ver : Nat) (v : String) (kw : String)
-    (hp : s.pc[t]? = some (.casExec k ver v)) (hw : s.watch[t]? = some (some (kw, false))) :
-    kw = k ∧ ∃ r, s.srv.live 0 k = some r ∧ r.ver = ver := by
+the record it read: the key holds a (live) record with exactly the expected version. -/
+theorem exec_sees_what_get_saw (n : Nat) (es : List Ev) (s : St) (ls : List (Lin.Ev LOp Out))
+    (h : runL (St.init n) es = some (s, ls)) (t : Nat) (k : String) (ver : Nat) (v : String) (e : Option Nat)
+    (kw : String)
+    (hp : s.pc[t]? = some (.casExec k ver v e)) (hw : s.watch[t]? = some (some (kw, false))) :
+    kw = k ∧ ∃ r, s.srv.live s.now k = some r ∧ r.ver = ver := by
   have hi := (WInv.init n).runL h
   obtain ⟨d, hd, hr⟩ := hi.ok t _ hp
   rw [hd] at hw
   simp only [Option.some.injEq, Prod.mk.injEq] at hw
   exact ⟨hw.1.symm, hr hw.2⟩
 
-/-- C02Redis.simulates: every concurrent run of the Redis clients is a run of the atomic-step
-system `Lin.Sys` over the KV contract: the Lin events it produces are accepted, the contract state
-equals the server state, and every client's operation is in the corresponding phase. -/
-theorem simulates (n : Nat) (es : List Ev) (s : St) (ls : List (Lin.Ev Op Out))
+/-- C02Redis.simulates: every concurrent run of the Redis clients and the clock is a run of the
+atomic-step system `Lin.Sys` over the KV contract with its time: the Lin events it produces are
+accepted, the contract state and time equal the server state and time, every client's operation is in
+the corresponding phase, and the clock thread (id = number of clients) is idle. -/
+theorem simulates (n : Nat) (es : List Ev) (s : St) (ls : List (Lin.Ev LOp Out))
     (h : runL (St.init n) es = some (s, ls)) :
-    ∃ L : Lin.Sys Spec Op Out, (Lin.Sys.init Spec.new).run obj ls = some L ∧ L.st = s.srv ∧
-      ∀ t p, s.pc[t]? = some p → Corr p (L.th t) := by
+    ∃ L : Lin.Sys (Spec × Nat) LOp Out, (Lin.Sys.init (Spec.new, 0)).run obj ls = some L ∧
+      L.st = (s.srv, s.now) ∧
+      (∀ t p, s.pc[t]? = some p → Corr p (L.th t)) ∧
+      L.th s.pc.length = .idle := by
   obtain ⟨L, hL, hs⟩ := sim_runL (WInv.init n) (sim_init n) h
-  exact ⟨L, hL, hs.1, hs.2⟩
+  exact ⟨L, hL, hs.1, hs.2.1, hs.2.2⟩
 
-/-- C02Redis.linearizable: the order in which the operations took effect is a legal sequential
-history of the KV contract producing exactly the results the clients got and the server's final
-state; it respects real time; every completed operation is in it exactly once. -/
-theorem linearizable (n : Nat) (es : List Ev) (s : St) (ls : List (Lin.Ev Op Out))
+/-- C02Redis.linearizable: the order in which the operations (and the ticks of the clock) took effect
+is a legal sequential history of the KV contract producing exactly the results the clients got and
+the server's final state and time; it respects real time; every completed operation is in it exactly
+once. -/
+theorem linearizable (n : Nat) (es : List Ev) (s : St) (ls : List (Lin.Ev LOp Out))
     (h : runL (St.init n) es = some (s, ls)) :
-    ∃ L : Lin.Sys Spec Op Out, (Lin.Sys.init Spec.new).run obj ls = some L ∧
-      seqRun obj Spec.new (L.order.map (·.2.1)) = (s.srv, L.order.map (·.2.2)) ∧
+    ∃ L : Lin.Sys (Spec × Nat) LOp Out, (Lin.Sys.init (Spec.new, 0)).run obj ls = some L ∧
+      seqRun obj (Spec.new, 0) (L.order.map (·.2.1)) = ((s.srv, s.now), L.order.map (·.2.2)) ∧
       (L.order.map (·.1)).Nodup ∧ (∀ a pa, (a, pa) ∈ L.retPos → a ∈ L.order.map (·.1)) ∧
       (∀ a b pa, (a, pa) ∈ L.retPos → b ∈ L.order.map (·.1) → pa < b →
         ∃ ia ib, (L.order.map (·.1)).idxOf? a = some ia ∧ (L.order.map (·.1)).idxOf? b = some ib ∧ ia < ib) := by
   obtain ⟨L, hL, hst, _⟩ := simulates n es s ls h
-  have h1 := LinThm.order_is_sequential obj Spec.new ls L hL
-  have h2 := LinThm.completed_in_order obj Spec.new ls L hL
+  have h1 := LinThm.order_is_sequential obj (Spec.new, 0) ls L hL
+  have h2 := LinThm.completed_in_order obj (Spec.new, 0) ls L hL
   refine ⟨L, hL, by rw [h1, hst], h2.1, h2.2, ?_⟩
   intro a b pa ha hb hlt
-  exact LinThm.order_respects_real_time obj Spec.new ls L hL a b pa ha hb hlt
+  exact LinThm.order_respects_real_time obj (Spec.new, 0) ls L hL a b pa ha hb hlt
 
 /-- a returned result is the one fixed at the operation's linearization point: `ret t r` is accepted
-only when the client's pc is `done r` -/
-theorem ret_is_lin_result (s s' : St) (t : Nat) (r : Out) (l : List (Lin.Ev Op Out))
-    (h : step s (.ret t r) = some (s', l)) : s.pc[t]? = some (.done r) ∧ l = [.ret t r] := by
+only when the client's pc is `done r` — or, for the loop path of PutMany (every SET already reported
+as a complete Put), when the loop is over and `r = ok`; that return is no `Lin` event. -/
+theorem ret_is_lin_result (s s' : St) (t : Nat) (r : Out) (l : List (Lin.Ev LOp Out))
+    (h : step s (.ret t r) = some (s', l)) :
+    (s.pc[t]? = some (.done r) ∧ l = [.ret t r]) ∨ (s.pc[t]? = some .loopDone ∧ r = .ok ∧ l = []) := by
   simp only [RedisConc.step] at h
   split at h
   · rename_i r' hp
@@ -63,27 +74,113 @@ theorem ret_is_lin_result (s s' : St) (t : Nat) (r : Out) (l : List (Lin.Ev Op O
     · rename_i hrr
       subst hrr
       simp only [Option.some.injEq, Prod.mk.injEq] at h
-      exact ⟨hp, h.2.symm⟩
+      exact .inl ⟨hp, h.2.symm⟩
+    · cases h
+  · rename_i hp
+    split at h
+    · rename_i hrr
+      simp only [Option.some.injEq, Prod.mk.injEq] at h
+      exact .inr ⟨hp, hrr, h.2.symm⟩
     · cases h
   · cases h
 
-/-- every operation has at most one linearization point: a command step emits `lin t` only when it
-moves the client to `done` -/
-theorem lin_once (s s' : St) (t : Nat) (l : List (Lin.Ev Op Out))
+/-- every operation has at most one linearization point.  A command step has one of three shapes:
+it emits `lin t` and moves the client (which was inside an operation) to `done`; or it emits nothing,
+leaves the server unchanged and stays inside the same operation; or it is one SET of the PutMany
+loop: a complete Put of the head record, the server takes that write, the loop advances. -/
+theorem lin_once (s s' : St) (t : Nat) (l : List (Lin.Ev LOp Out))
     (h : step s (.cmd t) = some (s', l)) :
-    (l = [.lin t] ∧ ∃ r, s'.pc[t]? = some (.done r)) ∨ (l = [] ∧ ∃ p, s'.pc[t]? = some p ∧ opOf p = (s.pc[t]?.bind opOf) ∧ s'.srv = s.srv) := by
+    (l = [.lin t] ∧ (∃ op, s.pc[t]?.bind opOf = some op) ∧ ∃ r, s'.pc[t]? = some (.done r)) ∨
+    (l = [] ∧ ∃ p op, s'.pc[t]? = some p ∧ opOf p = some op ∧ s.pc[t]?.bind opOf = some op ∧ s'.srv = s.srv) ∨
+    (∃ k v e rest, s.pc[t]? = some (.putLoop ((k, v, e) :: rest)) ∧
+      l = [.inv t (.op (.put k v e)), .lin t, .ret t (.okVer s.srv.nextVer)] ∧
+      s'.pc[t]? = some (if rest = [] then .loopDone else .putLoop rest) ∧
+      s'.srv = (s.srv.write k v e).1) := by
   simp only [RedisConc.step] at h
-  cases hcs : cmdStep s t with
-  | none => simp [hcs] at h
-  | some x =>
-    obtain ⟨s1, b⟩ := x
-    simp only [hcs, Option.map_some, Option.some.injEq, Prod.mk.injEq] at h
-    obtain ⟨rfl, rfl⟩ := h
-    obtain ⟨p, hp, hcase⟩ := cmdStep_weak hcs
-    have hlt : t < s.pc.length := (List.getElem?_eq_some_iff.mp hp).1
-    rcases hcase with ⟨rfl, r, hpc⟩ | ⟨rfl, hsrv, p', hpc, ho⟩
-    · exact .inl ⟨rfl, r, by rw [hpc]; simp [hlt]⟩
-    · exact .inr ⟨rfl, p', by rw [hpc]; simp [hlt], by rw [hp]; exact ho, hsrv⟩
+  obtain ⟨p, hp, hcase⟩ := cmdStep_weak h
+  have hlt : t < s.pc.length := (List.getElem?_eq_some_iff.mp hp).1
+  rcases hcase with ⟨rfl, ⟨op, ho⟩, r, hpc⟩ | ⟨rfl, hsrv, op, p', hpc, ho', ho⟩ | ⟨k, v, e, rest, rfl, rfl, hsrv, hpc⟩
+  · exact .inl ⟨rfl, ⟨op, by rw [hp]; exact ho⟩, r, by rw [hpc]; simp [hlt]⟩
+  · exact .inr (.inl ⟨rfl, p', op, by rw [hpc]; simp [hlt], ho', by rw [hp]; exact ho, hsrv⟩)
+  · exact .inr (.inr ⟨k, v, e, rest, hp, rfl, by rw [hpc, ← loopNext_eq]; simp [hlt], hsrv⟩)
+
+/-- PutMany of a non-empty list in which some record has an expiry takes the loop path: the call
+emits no `Lin` event and parks the client at `putLoop rs` -/
+theorem putmany_loop_entry (s : St) (t : Nat) (rs : List (String × String × Option Nat))
+    (hne : rs ≠ []) (hexp : rs.all (fun r => r.2.2.isNone) = false) (hidle : s.pc[t]? = some .idle) :
+    step s (.call t (.putMany rs)) = some (s.setPc t (.putLoop rs), []) := by
+  have h1 : rs.isEmpty = false := by cases rs <;> simp at hne ⊢
+  simp only [RedisConc.step, hidle, entry, h1, hexp]
+  rfl
+
+/-- one command of the PutMany loop is one SET, reported as ONE complete Put of the head record with
+the version that write got; the server takes exactly that write (touching the watchers of the key);
+the loop goes on with the remaining records, or is over -/
+theorem putmany_loop_is_puts (s s' : St) (t : Nat) (k v : String) (e : Option Nat)
+    (rest : List (String × String × Option Nat)) (l : List (Lin.Ev LOp Out))
+    (hp : s.pc[t]? = some (.putLoop ((k, v, e) :: rest))) (h : step s (.cmd t) = some (s', l)) :
+    l = [.inv t (.op (.put k v e)), .lin t, .ret t (.okVer s.srv.nextVer)] ∧
+    s'.pc[t]? = some (if rest = [] then .loopDone else .putLoop rest) ∧
+    s'.srv = (s.srv.write k v e).1 ∧ s'.watch = touch s.watch [k] ∧ s'.now = s.now := by
+  have hlt : t < s.pc.length := (List.getElem?_eq_some_iff.mp hp).1
+  simp only [RedisConc.step, cmdStep_putLoop hp, Option.some.injEq, Prod.mk.injEq] at h
+  obtain ⟨rfl, rfl⟩ := h
+  refine ⟨rfl, ?_, rfl, rfl, rfl⟩
+  rw [← loopNext_eq]
+  simp [St.setPc, hlt]
+
+/-- the whole loop, under any interleaving: client t is called with `putMany rs` on the loop path and
+then, while other clients do whatever they do, issues `rs.length` commands (and neither returns nor
+is called again): the `Lin` events of thread t, in order, are exactly one completed `put k v e` per
+record of `rs`, in the order of `rs` (`putEvs`; `vers` are the versions the writes got), and the client
+is at `loopDone`, about to return `ok`. -/
+theorem putmany_loop_run (s s' : St) (t : Nat) (rs : List (String × String × Option Nat))
+    (es : List Ev) (ls : List (Lin.Ev LOp Out))
+    (hne : rs ≠ []) (hexp : rs.all (fun r => r.2.2.isNone) = false) (hidle : s.pc[t]? = some .idle)
+    (honly : ∀ e ∈ es, clientOf e = some t → e = .cmd t) (hcnt : es.count (.cmd t) = rs.length)
+    (h : runL s (.call t (.putMany rs) :: es) = some (s', ls)) :
+    ∃ vers : List Nat, vers.length = rs.length ∧
+      ls.filter (fun x => threadOf x == t) = putEvs t (rs.zip vers) ∧
+      s'.pc[t]? = some .loopDone := by
+  obtain ⟨s1, l, ls', hst, hr, rfl⟩ := runL_cons h
+  rw [putmany_loop_entry s t rs hne hexp hidle] at hst
+  simp only [Option.some.injEq, Prod.mk.injEq] at hst
+  obtain ⟨rfl, rfl⟩ := hst
+  have hlt : t < s.pc.length := (List.getElem?_eq_some_iff.mp hidle).1
+  have hp : (s.setPc t (.putLoop rs)).pc[t]? = some (loopNext rs) := by
+    cases rs with
+    | nil => exact absurd rfl hne
+    | cons a rs => simp [St.setPc, hlt, loopNext]
+  simpa using loop_run t es _ _ _ rs hp honly hcnt hr
+
+/-- the clock advances only outside every client's TTL window, and moves nothing but the time -/
+theorem tick_only_outside_ttl_windows (s s' : St) (d : Nat) (l : List (Lin.Ev LOp Out))
+    (h : step s (.tick d) = some (s', l)) :
+    (∀ (t : Nat) (p : Pc), s.pc[t]? = some p → tickBlocked p = false) ∧
+    s'.now = s.now + d ∧ s'.srv = s.srv ∧ s'.pc = s.pc ∧ s'.watch = s.watch ∧
+    l = [.inv s.pc.length (.tick d), .lin s.pc.length, .ret s.pc.length .ok] := by
+  obtain ⟨hb, rfl, rfl⟩ := tick_shape h
+  exact ⟨hb, rfl, rfl, rfl, rfl, rfl⟩
+
+/-- expiry in the concurrent model: a record whose expiry lies before the server's time is invisible
+to every client, whatever command it issues next: GET / DEL / the GET of a CAS answer "absent", SETNX
+succeeds (and overwrites it). -/
+theorem expired_record_invisible_to_all_clients (s : St) (k : String) (r : Rec) (e : Nat)
+    (hr : s.srv.store.get k = some r) (he : r.exp = some e) (hlt : e < s.now) (t : Nat) :
+    s.srv.live s.now k = none ∧
+    (s.pc[t]? = some (.get k) → step s (.cmd t) = some (s.setPc t (.done .errNotExist), [.lin t])) ∧
+    (∀ v e', s.pc[t]? = some (.create1 k v e') →
+      step s (.cmd t) = some ({ s with srv := (s.srv.write k v e').1, watch := touch s.watch [k] }.setPc t
+        (.done (.okVer s.srv.nextVer)), [.lin t])) ∧
+    (s.pc[t]? = some (.del k) → step s (.cmd t) = some (s.setPc t (.done .errNotExist), [.lin t])) ∧
+    (∀ ver v e', s.pc[t]? = some (.casGet k ver v e') →
+      step s (.cmd t) = some ({ s with watch := s.watch.set t none }.setPc t (.done .errNotExist), [.lin t])) := by
+  have hl : s.srv.live s.now k = none := by simp [Spec.live, hr, expired, he, hlt]
+  refine ⟨hl, ?_, ?_, ?_, ?_⟩
+  · intro hp; simp [RedisConc.step, cmdStep, hp, Spec.step, hl]
+  · intro v e' hp; simp [RedisConc.step, cmdStep, hp, hl, Spec.write]
+  · intro hp; simp [RedisConc.step, cmdStep, hp, hl]
+  · intro ver v e' hp; simp [RedisConc.step, cmdStep, hp, hl]
 
 /-- non-vacuity: a run in which a CAS loses the WATCH/EXEC race against a Put, starts over, and
 reports ErrConflict; and a run in which Create's GET finds the key gone again and the second SETNX wins. -/
@@ -100,6 +197,36 @@ example : ∃ s ls, runL (St.init 2)
      .call 1 (.create "a" "y" none), .cmd 1,
      .call 0 (.delete "a"), .cmd 0, .ret 0 .ok,
      .cmd 1, .cmd 1, .ret 1 (.okVer 2)] = some (s, ls) := by
+  apply exists_of_isSome
+  decide
+
+/-- non-vacuity (a): a record expires between two Gets of another client -/
+example : ∃ s ls, runL (St.init 2)
+    [.call 0 (.put "a" "x" (some 5)), .cmd 0, .ret 0 (.okVer 1),
+     .call 1 (.get "a"), .cmd 1, .ret 1 (.record "x" 1 (some 5)),
+     .tick 10,
+     .call 1 (.get "a"), .cmd 1, .ret 1 .errNotExist] = some (s, ls) := by
+  apply exists_of_isSome
+  decide
+
+/-- non-vacuity (b): a loop-path PutMany of two records, another client's Put on the first key lands
+between the two SETs (and survives: the PutMany is not atomic) -/
+example : ∃ s ls, runL (St.init 2)
+    [.call 0 (.putMany [("a", "x", some 5), ("b", "y", none)]), .cmd 0,
+     .call 1 (.put "a" "z" none), .cmd 1, .ret 1 (.okVer 2),
+     .cmd 0, .ret 0 .ok,
+     .call 1 (.getMany ["a", "b"]), .cmd 1, .ret 1 (.recs [some ("z", 2, none), some ("y", 3, none)])]
+    = some (s, ls) := by
+  apply exists_of_isSome
+  decide
+
+/-- non-vacuity (c): a tick is REFUSED while a client is parked at a `put` with an expiry (its TTL is
+computed, its SET not yet sent), and accepted once the SET has been executed -/
+example : runL (St.init 2) [.call 0 (.put "a" "x" (some 5)), .tick 1] = none := by
+  rw [← Option.isNone_iff_eq_none]
+  decide
+
+example : ∃ s ls, runL (St.init 2) [.call 0 (.put "a" "x" (some 5)), .cmd 0, .tick 1] = some (s, ls) := by
   apply exists_of_isSome
   decide
 
